@@ -73,6 +73,70 @@ theorem fund_core {s s1 : State} {g : Nat} {amt : Int} (h : s.fund g amt = .ok s
   · cases h
   · cases h; exact ⟨⟨rfl, rfl, rfl, rfl⟩, rfl⟩
 
+theorem addGauge_ok {s s1 : State} {g : Gauge} (h : s.addGauge g = .ok s1) :
+    (∃ inc, s1 = { s with gauges := s.gauges ++ [newGauge (s.lastGauge + 1) g], lastGauge := s.lastGauge + 1,
+                          incBal := s.incBal + inc }) ∧ (∀ r, g.kind ≠ .rollapp r) ∧
+      (∀ r, g.kind = .endorsement r → (s.endorsement? r).isSome) := by
+  unfold State.addGauge at h
+  split at h
+  · cases h
+  · rename_i hk
+    cases h
+    refine ⟨⟨0, ?_⟩, ?_, ?_⟩
+    · simp
+    · intro r e; rw [hk] at e; cases e
+    · intro r e; rw [hk] at e; cases e
+  · rename_i r hk
+    split at h
+    · cases h
+    rename_i hsome
+    split at h
+    · cases h
+    · cases h
+      refine ⟨⟨g.coins, rfl⟩, ?_, ?_⟩
+      · intro r' e; rw [hk] at e; cases e
+      · intro r' e
+        rw [hk] at e; cases e
+        cases hh : s.endorsement? r with
+        | none => simp [hh] at hsome
+        | some _ => rfl
+
+theorem addGauge_core {s s1 : State} {g : Gauge} (h : s.addGauge g = .ok s1) :
+    SameCore s s1 ∧ s1.stk = s.stk := by
+  obtain ⟨⟨inc, rfl⟩, _, _⟩ := addGauge_ok h
+  exact ⟨⟨rfl, rfl, rfl, rfl⟩, rfl⟩
+
+theorem addRollapp_ok {s s1 : State} {r : Nat} (h : s.addRollapp r = .ok s1) :
+    s.endorsement? r = none ∧
+    s1 = { s with gauges := s.gauges ++ [{ id := s.lastGauge + 1, kind := .rollapp r, perpetual := true }],
+                  endorsements := s.endorsements ++ [⟨r, s.lastGauge + 1, 0, 0⟩],
+                  lastGauge := s.lastGauge + 1 } := by
+  unfold State.addRollapp at h
+  split at h
+  · cases h
+  · rename_i hn
+    cases h
+    refine ⟨?_, rfl⟩
+    cases hh : s.endorsement? r with
+    | none => rfl
+    | some _ => simp [hh] at hn
+
+theorem addRollapp_core {s s1 : State} {r : Nat} (h : s.addRollapp r = .ok s1) :
+    SameCore s s1 ∧ s1.stk = s.stk := by
+  obtain ⟨_, rfl⟩ := addRollapp_ok h
+  exact ⟨⟨rfl, rfl, rfl, rfl⟩, rfl⟩
+
+theorem setParams_ok {s s1 : State} {ma mv : Int} (h : s.setParams ma mv = .ok s1) :
+    s1 = { s with minAlloc := ma, minVP := mv } ∧ 0 ≤ mv ∧ 0 ≤ ma ∧ ma ≤ maxW := by
+  unfold State.setParams at h
+  split at h
+  · cases h
+  · rename_i hv
+    cases h
+    have hv' : validParams ma mv = true := by simpa using hv
+    simp only [validParams, Bool.and_eq_true, decide_eq_true_eq] at hv'
+    exact ⟨rfl, hv'.2, hv'.1.1, hv'.1.2⟩
+
 /-! ### one hook -/
 
 theorem hook_ok {s s' : State} {a val : Nat} {p : Option Int} (h : s.hook a val p = .ok s') :
@@ -104,17 +168,17 @@ theorem hook_good {s s' : State} {a val : Nat} {p : Option Int} (wf : WF s) (inv
   · exact processHook_inv wf inv hv
 
 theorem hook_tracked {s s' : State} {T : PTable} {a val : Nat} {p : Option Int} (hk : KeysNodup T)
-    (ht : Track s T) (hm : MinInv s) (hc : DvpClean s) (h : s.hook a val p = .ok s') :
-    Track s' (upd T (a, val) p) ∧ MinInv s' ∧ DvpClean s' := by
+    (ht : Track s T) (hc : DvpClean s) (h : s.hook a val p = .ok s') :
+    Track s' (upd T (a, val) p) ∧ DvpClean s' := by
   rcases hook_ok h with ⟨hv, rfl⟩ | ⟨v, hv, rfl⟩
-  · refine ⟨?_, hm, hc⟩
+  · refine ⟨?_, hc⟩
     intro a' v' hv'
     have ha : a' ≠ a := by intro e; subst e; rw [hv] at hv'; cases hv'
     have := ht a' v' hv'
     refine ⟨fun val' => ?_, ?_⟩
     · rw [this.1 val', pOf_upd_ne T p (fun e => ha (by cases e; rfl))]
     · rw [this.2, powerOf_upd_other T p (fun e => ha e.symm)]
-  · exact processHook_track hk ht hm hc hv
+  · exact processHook_track hk ht hc hv
 
 theorem hook_min {s s' : State} {a val : Nat} {p : Option Int} (hm : MinInv s) (h : s.hook a val p = .ok s') :
     MinInv s' := by
@@ -183,7 +247,7 @@ theorem setStk_cons (T : PTable) (x : (Nat × Nat) × Option Int) (xs : List ((N
     setStk T (x :: xs) = setStk (upd T x.1 x.2) xs := rfl
 
 theorem hooks_tracked {s s' : State} {T : PTable} {a : Nat} {hs : List (Nat × Option Int)} (hk : KeysNodup T)
-    (ht : Track s T) (hm : MinInv s) (hc : DvpClean s) (h : s.hooks a hs = .ok s') :
+    (ht : Track s T) (hc : DvpClean s) (h : s.hooks a hs = .ok s') :
     Track s' (setStk T (finOf a hs)) ∧ DvpClean s' := by
   induction hs generalizing s T with
   | nil => cases h; exact ⟨ht, hc⟩
@@ -192,10 +256,10 @@ theorem hooks_tracked {s s' : State} {T : PTable} {a : Nat} {hs : List (Nat × O
     split at h
     · cases h
     · rename_i s1 h1
-      have := hook_tracked hk ht hm hc h1
+      have := hook_tracked hk ht hc h1
       show Track s' (setStk T (((a, x.1), x.2) :: finOf a xs)) ∧ _
       rw [setStk_cons]
-      exact ih (KeysNodup_upd hk _ _) this.1 this.2.1 this.2.2 h
+      exact ih (KeysNodup_upd hk _ _) this.1 this.2 h
 
 /-! ### hypotheses over op lists -/
 
@@ -245,8 +309,28 @@ theorem step_good {s : State} {op : Op} (wf : WF s) (inv : DistInv s) :
     simp only [step]; split
     · rename_i s1 h; have := (fund_core h).1; exact ⟨this.wf wf, this.distInv inv⟩
     · exact ⟨wf, inv⟩
+  | addGauge g =>
+    simp only [step]; split
+    · rename_i s1 h; have := (addGauge_core h).1; exact ⟨this.wf wf, this.distInv inv⟩
+    · exact ⟨wf, inv⟩
+  | addRollapp r =>
+    simp only [step]; split
+    · rename_i s1 h; have := (addRollapp_core h).1; exact ⟨this.wf wf, this.distInv inv⟩
+    · exact ⟨wf, inv⟩
+  | setParams ma mv =>
+    simp only [step]; split
+    · rename_i s1 h
+      obtain ⟨rfl, hmv, _, _⟩ := setParams_ok h
+      exact ⟨⟨hmv, wf.sorted, wf.keys, wf.votes⟩, ⟨inv.gauges, inv.vp⟩⟩
+    · exact ⟨wf, inv⟩
 
-theorem step_min {s : State} {op : Op} (hm : MinInv s) : MinInv (step s op).1 := by
+/-- the op does not RAISE MinVotingPower (a raise leaves the votes cast under the lower minimum in
+    place: `min_power_recorded_counterexample`) -/
+def NoRaiseMin (s : State) : Op → Prop
+  | .setParams _ mv => mv ≤ s.minVP
+  | _ => True
+
+theorem step_min {s : State} {op : Op} (hm : MinInv s) (hr : NoRaiseMin s op) : MinInv (step s op).1 := by
   cases op with
   | vote a ws =>
     simp only [step]; split
@@ -297,8 +381,25 @@ theorem step_min {s : State} {op : Op} (hm : MinInv s) : MinInv (step s op).1 :=
     simp only [step]; split
     · rename_i s1 h; exact (fund_core h).1.minInv hm
     · exact hm
+  | addGauge g =>
+    simp only [step]; split
+    · rename_i s1 h; exact (addGauge_core h).1.minInv hm
+    · exact hm
+  | addRollapp r =>
+    simp only [step]; split
+    · rename_i s1 h; exact (addRollapp_core h).1.minInv hm
+    · exact hm
+  | setParams ma mv =>
+    simp only [step]; split
+    · rename_i s1 h
+      obtain ⟨rfl, _, _, _⟩ := setParams_ok h
+      intro a v hv
+      have h1 : mv ≤ s.minVP := hr
+      have h2 : s.minVP ≤ v.vp := hm a v hv
+      exact Int.le_trans h1 h2
+    · exact hm
 
-theorem step_tracked {s : State} {op : Op} (ht : Tracked s) (hm : MinInv s) (hf : OpFaithful op) :
+theorem step_tracked {s : State} {op : Op} (ht : Tracked s) (hf : OpFaithful op) :
     Tracked (step s op).1 := by
   cases op with
   | vote a ws =>
@@ -314,12 +415,12 @@ theorem step_tracked {s : State} {op : Op} (ht : Tracked s) (hm : MinInv s) (hf 
         have hc1 : DvpClean (s.revokeVote a v) := revokeVote_clean ht.clean
         have hnone : ∀ val, alookup (a, val) (s.revokeVote a v).dvp = none :=
           fun val => hc1 a val (by rw [revokeVote_votes]; exact alookup_aerase_self _ _)
-        have := castVote_track (s1 := s.revokeVote a v) ht.keys (revokeVote_track ht.track) (revokeVote_min hm) hnone h
-        exact ⟨by rw [this.2.2]; exact ht.keys, this.1, castVote_clean hc1 ht.keys h⟩
+        have := castVote_track (s1 := s.revokeVote a v) ht.keys (revokeVote_track ht.track) hnone h
+        exact ⟨by rw [this.2]; exact ht.keys, this.1, castVote_clean hc1 ht.keys h⟩
       · rename_i hv
         have hnone : ∀ val, alookup (a, val) s.dvp = none := fun val => ht.clean a val hv
-        have := castVote_track ht.keys ht.track hm hnone h
-        exact ⟨by rw [this.2.2]; exact ht.keys, this.1, castVote_clean ht.clean ht.keys h⟩
+        have := castVote_track ht.keys ht.track hnone h
+        exact ⟨by rw [this.2]; exact ht.keys, this.1, castVote_clean ht.clean ht.keys h⟩
     · exact ht
   | revoke a =>
     simp only [step]; split
@@ -344,7 +445,7 @@ theorem step_tracked {s : State} {op : Op} (ht : Tracked s) (hm : MinInv s) (hf 
         cases h
         have hfin : fin = finOf a hs := hf
         subst hfin
-        have := hooks_tracked ht.keys ht.track hm ht.clean h2
+        have := hooks_tracked ht.keys ht.track ht.clean h2
         rw [← hooks_stk h2] at this
         exact ⟨KeysNodup_setStk (hooks_stk h2 ▸ ht.keys) _, this.1, this.2⟩
     · exact ht
@@ -357,6 +458,24 @@ theorem step_tracked {s : State} {op : Op} (ht : Tracked s) (hm : MinInv s) (hf 
     · rename_i s1 h
       have := fund_core h
       exact ⟨this.2 ▸ ht.keys, this.2 ▸ this.1.track ht.track, this.1.clean ht.clean⟩
+    · exact ht
+  | addGauge g =>
+    simp only [step]; split
+    · rename_i s1 h
+      have := addGauge_core h
+      exact ⟨this.2 ▸ ht.keys, this.2 ▸ this.1.track ht.track, this.1.clean ht.clean⟩
+    · exact ht
+  | addRollapp r =>
+    simp only [step]; split
+    · rename_i s1 h
+      have := addRollapp_core h
+      exact ⟨this.2 ▸ ht.keys, this.2 ▸ this.1.track ht.track, this.1.clean ht.clean⟩
+    · exact ht
+  | setParams ma mv =>
+    simp only [step]; split
+    · rename_i s1 h
+      obtain ⟨rfl, _, _, _⟩ := setParams_ok h
+      exact ⟨ht.keys, ht.track, ht.clean⟩
     · exact ht
 
 end DymVerif.Spons
